@@ -40,6 +40,12 @@ CHECKS['C16'] = dict(technique='runtime monitoring: crash/abort/CPU/allocation m
                   'peak allocation <= 64 MiB + 4096 x input size.',
              note='Mutations are generic aligned-field mutations, not guided by coverage; held only on the mutants generated. dev profile (overflow checks) in quick, dev+release in thorough.',
              design='3/C16')
+CHECKS['C01'] = dict(technique='runtime monitoring: round-trip oracle (bytes of compile(decompile(B)) vs B) over bundled and freshly compiled binaries, option subsets, widths, alias mapfiles',
+             text='Exploration. B ranges over the 30 bundled binaries (all 32 option subsets each) and binaries truth just compiled from generated sources of every format/game; each is decompiled under sampled '
+                  'option subsets x widths (x optional alias mapfile), recompiled (ANM with -i B) and compared bytewise; mismatches are classified by an independent layout parser (first differing field).',
+             note='Loss-warning exemption = any decompile warning other than the byte-blob notice; exemptions are counted. Generators avoid constant conditions / unreferenced MSG scripts most of the time '
+                  '(both are recorded known findings).',
+             design='3/C01')
 WIP = {}  # property -> reason (not claimed)
 
 def main():
